@@ -14,6 +14,7 @@ open Srtla Srtla.Gen Srtla.Conn Srtla.Select Srtla.Link Srtla.Sys Srtla.Spec.Cla
 set_option linter.unusedSectionVars false
 
 variable {F : Type}
+variable {fa : List (Nat × Nat)}
 
 /-! ## Score -/
 
@@ -219,9 +220,11 @@ def Landed (l : FLink F) (pkt : List UInt8) (seq : Option Nat) (now : Nat) (fail
   (l.regime.batchSize ≤ q.length ∧ failNext.contains l.core.connId = false ∧ l'.queue = [] ∧
     l'.core.window = l.core.window ∧ l'.core.cong = l.core.cong ∧
     wire = q.map (fun it => (l.core.connId, it.1))) ∨
-  -- threshold reached and the (injected) socket error: batch lost, link torn down for recovery
+  -- threshold reached and the (injected) socket error: batch lost - apart from the prefix `send_all_datagrams`
+  -- got out before the failing call (none for a plain `failNext` injection) -, link torn down for recovery
   (l.regime.batchSize ≤ q.length ∧ failNext.contains l.core.connId = true ∧ l'.queue = [] ∧
-    l'.core.window = 20000 ∧ l'.core.connected = false ∧ l'.core.cong = l.core.cong ∧ wire = [])
+    l'.core.window = 20000 ∧ l'.core.connected = false ∧ l'.core.cong = l.core.cong ∧
+    ∃ k, wire = (q.take k).map (fun it => (l.core.connId, it.1)))
 
 theorem takeBatch_nonempty (l : FLink F) (now : Nat) (h : l.queue.isEmpty = false) :
     (l.takeBatch now).2 = l.queue ∧ (l.takeBatch now).1.queue = [] ∧
@@ -237,11 +240,11 @@ theorem takeBatch_nonempty (l : FLink F) (now : Nat) (h : l.queue.isEmpty = fals
   refine ⟨?_, ?_, ?_, ?_, ?_, ?_, ?_⟩ <;> first | assumption | rfl | trivial
 
 theorem sendConnectionBatch_nonempty (l : FLink F) (now : Nat) (fn : List Nat) (h : l.queue.isEmpty = false) :
-    (sendConnectionBatch l now fn).1 = (l.takeBatch now).1 ∧
-    ((fn.contains l.core.connId = false ∧ (sendConnectionBatch l now fn).2.2.1 = true ∧
-        (sendConnectionBatch l now fn).2.1 = l.queue.map (fun it => (l.core.connId, it.1))) ∨
-     (fn.contains l.core.connId = true ∧ (sendConnectionBatch l now fn).2.2.1 = false ∧
-        (sendConnectionBatch l now fn).2.1 = [])) := by
+    (sendConnectionBatch fa l now fn).1 = (l.takeBatch now).1 ∧
+    ((fn.contains l.core.connId = false ∧ (sendConnectionBatch fa l now fn).2.2.1 = true ∧
+        (sendConnectionBatch fa l now fn).2.1 = l.queue.map (fun it => (l.core.connId, it.1))) ∨
+     (fn.contains l.core.connId = true ∧ (sendConnectionBatch fa l now fn).2.2.1 = false ∧
+        ∃ k, (sendConnectionBatch fa l now fn).2.1 = (l.queue.take k).map (fun it => (l.core.connId, it.1)))) := by
   have ht := (takeBatch_nonempty l now h).1
   unfold sendConnectionBatch
   generalize l.takeBatch now = r at ht ⊢
@@ -251,7 +254,8 @@ theorem sendConnectionBatch_nonempty (l : FLink F) (now : Nat) (fn : List Nat) (
   rw [if_neg (by simp [h])]
   cases hf : fn.contains l.core.connId
   · simp
-  · simp
+  · simp only [if_true, true_and, Bool.true_eq_false, false_and, false_or]
+    exact ⟨_, rfl⟩
 
 omit [Scalar F] in
 theorem markForRecovery_facts (l : FLink F) :
@@ -287,7 +291,7 @@ theorem forwardVia_cases (s : Sys F) (sel : Nat) (pkt : List UInt8) (seq : Optio
     rw [if_pos hn]
     obtain ⟨e1, hcase⟩ := sendConnectionBatch_nonempty l1 now s.failNext hne
     obtain ⟨-, tq, tw, tg, -, -, ts⟩ := takeBatch_nonempty l1 now hne
-    generalize sendConnectionBatch l1 now s.failNext = r at e1 hcase
+    generalize sendConnectionBatch s.failAfter l1 now s.failNext = r at e1 hcase
     obtain ⟨l2, wire, ok, fn⟩ := r
     dsimp only at e1 hcase ⊢
     subst e1
@@ -302,7 +306,9 @@ theorem forwardVia_cases (s : Sys F) (sel : Nat) (pkt : List UInt8) (seq : Optio
       refine ⟨_, _, _, _, rfl, ?_, fun _ => by rw [if_neg (by simp)]; exact hm.2.2.2.2.1⟩
       right; right
       rw [if_neg (by simp)]
-      exact ⟨hb, by rw [← hc1]; exact hf, hm.1, hm.2.1, hm.2.2.1, by rw [hm.2.2.2.1, tg, hc1], hw⟩
+      obtain ⟨k, hw⟩ := hw
+      exact ⟨hb, by rw [← hc1]; exact hf, hm.1, hm.2.1, hm.2.2.1, by rw [hm.2.2.2.1, tg, hc1],
+        ⟨k, by rw [hw, hq1, hc1]⟩⟩
   · have hn : needs = false := by rw [h2]; simpa using hb
     rw [if_neg (by simp [hn])]
     refine ⟨_, _, _, _, rfl, ?_, fun hs => by rw [hs1, hs]⟩
@@ -313,7 +319,7 @@ omit [Scalar F] in
 /-- No link is stall-gated ⇒ `send_stall_probes` does nothing. -/
 theorem stallProbesGo_noop (pkt : List UInt8) (seq : Option Nat) (now sel : Nat) (ls : List (FLink F)) (i : Nat)
     (fn : List Nat) (h : ∀ l ∈ ls, l.stallGated = false) :
-    stallProbesGo pkt seq now sel ls i fn = (ls, [], fn) := by
+    stallProbesGo fa pkt seq now sel ls i fn = (ls, [], fn) := by
   induction ls generalizing i with
   | nil => rfl
   | cons l rest ih =>
@@ -1171,7 +1177,7 @@ theorem takeBatch_frame (l : FLink F) (now : Nat) :
   · exact ⟨fw, fg, fc, fp⟩
 
 theorem sendConnectionBatch_fst (l : FLink F) (now : Nat) (fn : List Nat) :
-    (sendConnectionBatch l now fn).1 = (l.takeBatch now).1 := by
+    (sendConnectionBatch fa l now fn).1 = (l.takeBatch now).1 := by
   unfold sendConnectionBatch
   generalize l.takeBatch now = r
   obtain ⟨l1, batch⟩ := r
@@ -1181,14 +1187,14 @@ theorem sendConnectionBatch_fst (l : FLink F) (now : Nat) (fn : List Nat) :
   · split <;> rfl
 
 theorem flushGo_PW (now : Nat) (ls : List (FLink F)) (fn : List Nat) :
-    PW StampRel ls (flushGo now ls fn).1 := by
+    PW StampRel ls (flushGo fa now ls fn).1 := by
   induction ls generalizing fn with
   | nil => exact PW_nil _
   | cons l rest ih =>
     rw [flushGo]
     split
-    · have e := sendConnectionBatch_fst l now fn
-      generalize sendConnectionBatch l now fn = r at e ⊢
+    · have e := sendConnectionBatch_fst (fa := fa) l now fn
+      generalize sendConnectionBatch fa l now fn = r at e ⊢
       obtain ⟨l1, wire, ok, fn1⟩ := r
       dsimp only at e ⊢
       subst e
